@@ -2,7 +2,7 @@ SPEC = {
     'id': 'C01',
     'harness': 'hC01',
     'coq_dir': 'C01',
-    'claimed': False,
+    'claimed': True,
     'theorems': [
         'C01_set_preserves_order', 'C01_set_preserves_avl', 'C01_get_set', 'C01_get_is_lookup',
         'C01_traverse_range', 'C01_iterate_range', 'C01_root_identifies_tree', 'C01_save_monotone',
